@@ -104,16 +104,37 @@ func (n *ParallelNode) Run(ctx context.Context) error {
 	defer func() {
 		close(workerJobs)
 		close(coordinatorJobs)
-		workerWg.Wait()
-		coordinatorWg.Wait()
+
+		// Keep draining errs while the workers and the coordinator wind down.
+		// The coordinator reports one error per failed job, which can be more
+		// than the buffer holds, and nothing else reads errs once the loop
+		// below has returned: waiting for the goroutines first would leave the
+		// coordinator blocked on errs, a forwarder blocked on job.Done and this
+		// node (and with it the whole pipeline) stuck forever.
+		stopped := make(chan struct{})
+		go func() {
+			workerWg.Wait()
+			coordinatorWg.Wait()
+			close(stopped)
+		}()
+		collect := func(workerErr error) {
+			err = cerrors.LogOrReplace(err, workerErr, func() {
+				n.logger.Warn(ctx).Err(workerErr).Msg("parallel worker node failed")
+			})
+		}
 		for {
 			select {
 			case workerErr := <-errs:
-				err = cerrors.LogOrReplace(err, workerErr, func() {
-					n.logger.Warn(ctx).Err(workerErr).Msg("parallel worker node failed")
-				})
-			default:
-				return
+				collect(workerErr)
+			case <-stopped:
+				for {
+					select {
+					case workerErr := <-errs:
+						collect(workerErr)
+					default:
+						return
+					}
+				}
 			}
 		}
 	}()
